@@ -175,6 +175,32 @@ theorem copeland_in_smith {v : Pairwise} (hwf : WF v) (secondOrder : Bool) :
     exact hbest s' hs' c hc'
   · exact hbest s hs c hc
 
+/-- **Schulze's first place lies in the Smith set**: members of the Smith set keep a positive path strength
+    to every outsider and no outsider ever gets one back, so they win strictly more path comparisons. -/
+theorem schulze_in_smith {v : Pairwise} (hwf : WF v) :
+    ∀ s ∈ schulze v 1, ∀ c ∈ slotMembers s, c ∈ smithSet v := schulze_first_in_smith hwf
+
+/-- **Kemeny-Young's first place lies in the Smith set** whenever it answers: in the unique best order no
+    outsider can stand immediately before a member of the Smith set (swapping them would raise the score). -/
+theorem kemeny_in_smith {v : Pairwise} (hwf : WF v) {n : Nat} {r : List Slot} (h : kemenyYoung v n = .ok r)
+    (hne : candidates v ≠ []) (hn : 1 ≤ n) : ∃ c, r.head? = some (Slot.cand c) ∧ c ∈ smithSet v := by
+  obtain ⟨best, hp, hr, hbest⟩ := kemenyYoung_ok h
+  have hdom : Graph.Dominating (candidates v) (Beats v) (fun x => x ∈ smithSet v) := by
+    have : (fun x => x ∈ smithSet v) = Graph.SmithReach (candidates v) (Beats v) :=
+      funext fun x => propext (mem_smithSet hwf x)
+    rw [this]; exact Graph.smithReach_dominating
+  obtain ⟨s, hs⟩ := Graph.smithReach_nonempty (cands := candidates v) (B := Beats v)
+    (fun _ _ h => Beats.asymm h) hne
+  obtain ⟨a, hhead, ha⟩ := kemeny_best_head_dominating hdom ⟨s, (mem_smithSet hwf s).2 hs⟩ hp hbest
+  refine ⟨a, ?_, ha⟩
+  cases best with
+  | nil => simp at hhead
+  | cons b rest =>
+    simp only [List.head?_cons, Option.some.injEq] at hhead
+    subst hhead
+    obtain ⟨k, rfl⟩ : ∃ k, n = k + 1 := ⟨n - 1, by omega⟩
+    rw [hr]; rfl
+
 /-! ### nobody who took part in a pairwise contest is dropped -/
 
 /-- **Copeland**: with at least as many seats as candidates every candidate is listed. -/
